@@ -119,3 +119,7 @@ def dispatch_break_ok(definitions, name):
         elif isinstance(definition, FragmentDefinitionNode):
             fragments[definition.name] = definition
     return operation, fragments
+
+
+def param_bad(schema, document, type_resolver=None):
+    return execute(schema, document)
